@@ -102,7 +102,18 @@ XalanDOMStringCache::release(XalanDOMString&    theString)
         {
             theString.erase();
 
-            m_availableList.push_back(*i);
+            // This function is called from destructors (of
+            // GetCachedString and XStringCached, for example), so
+            // it must not throw if the list cannot grow: treat
+            // the cache as full instead.
+            try
+            {
+                m_availableList.push_back(*i);
+            }
+            catch(...)
+            {
+                m_allocator.destroy(theString);
+            }
         }
 
         m_busyList.erase(i);
